@@ -28,6 +28,9 @@ const (
 	minAllocContexts = 16
 )
 
+// stdin is shared by all reads, so input buffered by one read is not lost for the next.
+var stdin = bufio.NewReader(os.Stdin)
+
 type context struct {
 	ip       int                           // instruction pointer
 	tmp      value.Type                    // temp register saved while the context is suspended
@@ -490,9 +493,8 @@ func (vm *Type) Run(retResult bool) (value.Type, error) {
 			}
 
 		case bytecode.READ:
-			b := bufio.NewReader(os.Stdin)
-			line, err := b.ReadString('\n')
-			if err != nil {
+			line, err := stdin.ReadString('\n')
+			if err != nil && line == "" {
 				return vm.dumpStack(ctxp, ip, fmt.Errorf("read error %w", err))
 			}
 			m.Push(value.NewString(line))
